@@ -4,7 +4,7 @@
    them Python) is decided by the three-way correspondence/oracle run, see DESIGN §7 C07 — the
    theorems named *_partial below say what part of the full statement is proved. *)
 From OptreeModel Require Import Base Tree Flatten Unflatten Spec.
-From OptreeProofs Require Import SpecProofs OrderProofs PrefixOrder JoinOrder FlattenGood UpToProofs.
+From OptreeProofs Require Import SpecProofs OrderProofs PrefixOrder JoinOrder FlattenGood UpToProofs UpToPrefix.
 
 (* reflexive; comparing a treespec with itself never is a strict prefix *)
 Theorem C07_prefix_refl :
@@ -69,6 +69,32 @@ Theorem C07_flatten_up_to_self :
     ss_flatten_up_to (c_reg c) s o = Ok ls.
 Proof. exact flatten_up_to_self. Qed.
 Print Assumptions C07_flatten_up_to_self.
+
+(* TWO OF THE THREE DECIDERS AGREE. For any two trees flattened under the same configuration (no
+   predicate): PyTreeSpec.flatten_up_to of the first tree's treespec applied to the second tree succeeds
+   exactly when the first treespec is a prefix (PyTreeSpec.is_prefix) of the second tree's treespec.
+   Every node kind, dict nodes with permuted keys and mixed dict kinds, registered and unregistered
+   custom classes, None as node or leaf. *)
+Theorem C07_flatten_up_to_iff_is_prefix :
+  forall c o1 o2 ls1 sp1 s1 ls2 sp2 s2,
+    c_pred c = None -> wf_obj o1 = true -> wf_obj o2 = true ->
+    flatten c o1 = Ok (ls1, sp1) -> sspec_of sp1 = Some s1 ->
+    flatten c o2 = Ok (ls2, sp2) -> sspec_of sp2 = Some s2 ->
+    ((exists subtrees, ss_flatten_up_to (c_reg c) s1 o2 = Ok subtrees) <->
+     fst (st_prefix (stree_of s1) (stree_of s2)) = true).
+Proof. exact flattened_up_to_iff_prefix. Qed.
+Print Assumptions C07_flatten_up_to_iff_is_prefix.
+
+(* the same for an arbitrary treespec of the configuration (not necessarily obtained by flatten) *)
+Theorem C07_flatten_up_to_iff_is_prefix_general :
+  forall c s o ls sp so,
+    c_pred c = None -> c_ns c = ss_ns s ->
+    good (stree_of s) = true -> spec_ok c (stree_of s) = true ->
+    wf_obj o = true -> flatten c o = Ok (ls, sp) -> sspec_of sp = Some so ->
+    ((exists subtrees, ss_flatten_up_to (c_reg c) s o = Ok subtrees) <->
+     fst (st_prefix (stree_of s) (stree_of so)) = true).
+Proof. exact flatten_up_to_iff_is_prefix. Qed.
+Print Assumptions C07_flatten_up_to_iff_is_prefix_general.
 
 Example C07_example :
   let c := {| c_nil := false; c_ns := 0; c_pred := None; c_reg := []; c_ins := []; c_limit := 1000 |} in
